@@ -21,6 +21,12 @@ open FuelVerif.Gen
 /-- the translator's list of registers kept from the callee is the list the model's `returnFromContext` keeps -/
 theorem kept_regs_match : retKeptRegs = [regCgas, regGgas, regRet, regRetl, regHp] := by decide
 
+/-- **The new frame starts at the caller's `$sp`** (not at its `$ssp`): the register `prepare_call` reads the frame base
+from, regenerated from the Rust text, is `$sp`. Together with `callee_entry_state` (`$fp` = old `$sp`, callee
+`$ssp = $sp` = old `$sp` + frame + code) and `call_writes_above_caller_stack` this is what keeps a caller's LIVE
+frame locals `[$ssp, $sp)` out of reach of the frame write and of the callee's stack. -/
+theorem frame_base_is_sp : callFrameBaseReg = regSp := by decide
+
 /-- the generated frame layout is the canonical serialization of the `CallFrame` fields in order:
 to (32) | asset id (32) | 64 registers | code size | a | b -/
 theorem frame_layout (f : Frame) (hto : f.to.length = 32) (has : f.assetId.length = 32) :
@@ -102,7 +108,7 @@ theorem call_writes_above_caller_stack {a b c d : Nat} {env : CallEnv} {vm vm' :
   obtain ⟨w1, w2, w3, w4⟩ := writeNoOwner_bytes F.hwrite
   have hfl := Frame.toBytes_length ⟨F.to, F.asset, setReg F.r2 regCgas (F.r2 regCgas - min (F.r2 regCgas) d),
     padded F.codeSize, F.ca, F.cb⟩ F.hto F.hasset
-  simp only [CallFacts.result, buildCallee, setFramePointer]
+  simp only [CallFacts.result, buildCallee, setFramePointer, show callFrameBaseReg = regSp from by decide]
   refine ⟨fun x hx hd => ?_, by rw [w3, g2, d2], ⟨_, rfl, hfl, fun i hi => ?_⟩, ?_⟩
   · rw [w1 x hx, g1 x (by omega), d1 x hd]
   · have hfp : (setReg (setReg (setReg (setReg (setReg (setReg (setReg (setReg
